@@ -306,6 +306,19 @@ def body(prop, args, seed, t0):
                 tie_broken("translated_check_t10", bad10, "translator disagreement (gate matrices)")
         # --- T10 end
 
+        # --- T8: the translated definitions of circuits/_serde.py (harness/translate_t8.py -> OQ/Generated/TranslatedC05.lean, tied to the
+        # model of C05 by Props/C05_TranslatedSerde.lean) are run in the driver (tag "TRT8") under the instantiation of the tie theorems
+        # and compared with the real `to_dict` / `*_from_dict` functions on seeded gate trees / circuits / damaged dictionaries
+        if prop == "C05" and driver.available() and (build_ok or common.lake_build(["oqdriver"])[0]):
+            from harness import translated_check_t8 as _t8
+            n8, bad8, untr8, listed8 = _t8.run(seed)
+            tie["translated_serde_vs_python_function"] = n8
+            tie["translated_functions"] = list(tie.get("translated_functions", [])) + listed8
+            tie["untranslatable_now"] = list(tie.get("untranslatable_now", [])) + untr8
+            if bad8:
+                tie_broken("translated_check_t8", bad8, "translator disagreement (_serde.py)")
+        # --- T8 end
+
     except Timeout:
         raise
     except Exception as e:  # noqa: BLE001
